@@ -133,6 +133,9 @@ func genSchemaFamily(c *Ctx, filter func(string) bool) {
 	if c.Tier == "thorough" {
 		n, depth = 120, 2
 	}
+	if c.Prop == "C08" && c.Tier != "thorough" {
+		n = 12 // the document space per type is the expensive dimension here
+	}
 	for i := 0; i < n; i++ {
 		name := fmt.Sprintf("s_%03d", i)
 		if filter != nil && !filter(name) {
@@ -159,6 +162,11 @@ func genSchemaFamily(c *Ctx, filter func(string) bool) {
 			g.define("VarA", "type: object\nrequired:\n  - a_only\nproperties:\n  a_only:\n    type: string\n  shared:\n    type: integer\n")
 			g.define("VarB", "type: object\nrequired:\n  - b_only\nproperties:\n  b_only:\n    type: integer\n    format: int64\n  shared:\n    type: integer\n")
 			g.define("Choice", "oneOf:\n  - $ref: '#/components/schemas/VarA'\n  - $ref: '#/components/schemas/VarB'\n")
+			// discriminated oneOf with a PARTIAL explicit mapping (third variant implicit)
+			for _, v := range []string{"Circle", "Square", "Tri"} {
+				g.define(v, "type: object\nrequired:\n  - kind\nproperties:\n  kind:\n    type: string\n  "+strings.ToLower(v)+"_size:\n    type: integer\n")
+			}
+			g.define("Shape", "oneOf:\n  - $ref: '#/components/schemas/Circle'\n  - $ref: '#/components/schemas/Square'\n  - $ref: '#/components/schemas/Tri'\ndiscriminator:\n  propertyName: kind\n  mapping:\n    circle: '#/components/schemas/Circle'\n    square: '#/components/schemas/Square'\n")
 		case 4: // array of base
 			g.define("List", "type: array\nitems:\n  $ref: '#/components/schemas/Base0'\n")
 		case 5: // all-optional base embedded first, then inline required
